@@ -227,6 +227,10 @@ UNITS = {
                     "fn eval_div<'a>(args: &[Option<Value<'a>>]) -> Option<Value<'a>>", "fn eval_mod<'a>(args: &[Option<Value<'a>>]) -> Option<Value<'a>>",
                     "fn eval_ceil<'a>(args: &[Option<Value<'a>>]) -> Option<Value<'a>>", "fn eval_floor<'a>(args: &[Option<Value<'a>>]) -> Option<Value<'a>>"],
     },
+    "wal": {
+        "src": "src/storage/wal.rs",
+        "anchors": ["pub fn frame_type(&self) -> WalFrameType", "pub fn new_undo_frame(", "pub fn undo_table_id(&self) -> u32", "pub fn undo_txn_id(&self) -> u32"],
+    },
 }
 
 PROPS = {
@@ -321,10 +325,10 @@ PROPS = {
     },
     "C23": {
         "level": "proof",
-        "level_text": "Proof (complete over the input bytes) that the fixed-size decoders return a value or an error and never panic, overflow or read out of bounds: decode_varint on every byte string; the three file-header decoders on any 0..160 bytes; PageHeader::from_bytes / validate_page on any bytes of any length up to a page; decode_key behind every non-recursive known prefix (and 11 representative unknown prefix bytes) on any 0..24 bytes; RowSerde::deserialize_value for every fixed-width discriminant; ToastPointer::decode (with decode(encode(p)) == p) and SQ8VectorRef::from_bytes on any bytes. Bounded (same source compiled with PAGE_SIZE = 256): LeafNode::{from_page, slot_at, key_at, value_at, value_len_at} and InteriorNode::{from_page, slot_at, key_at} on ANY page bytes and any index. Partial: JSONB, array, catalog, WAL-frame and HNSW decoders, recursive decode_key arms, InteriorNode::find_child and opening corrupted database files are not covered; RecordView getters are an open known finding.",
+        "level_text": "Proof (complete over the input bytes) that the fixed-size decoders return a value or an error and never panic, overflow or read out of bounds: decode_varint on every byte string; the three file-header decoders on any 0..160 bytes; PageHeader::from_bytes / validate_page on any bytes of any length up to a page; decode_key behind every non-recursive known prefix (and 11 representative unknown prefix bytes) on any 0..24 bytes; RowSerde::deserialize_value for every fixed-width discriminant; ToastPointer::decode (with decode(encode(p)) == p), SQ8VectorRef::from_bytes and the WAL frame header bit fields (frame type, file / table / txn ids; undo-frame packing round trip) on any bytes. Bounded (same source compiled with PAGE_SIZE = 256): LeafNode::{from_page, slot_at, key_at, value_at, value_len_at} and InteriorNode::{from_page, slot_at, key_at} on ANY page bytes and any index. Partial: JSONB, array, catalog, WAL-frame and HNSW decoders, recursive decode_key arms, InteriorNode::find_child and opening corrupted database files are not covered; RecordView getters are an open known finding.",
         "level_note": "Partial. Two defects found by these obligations were repaired (slot_at bound, value_at length overflow); one is open (RecordView getters panic on short records). Obligations that exceeded the machine budget are tier=manual and in no registered command (find_child, nested decode_key patterns). The file-system level clause (opening a corrupted database) is outside this technique.",
         "technique": "Kani Hoare triples over fully symbolic input bytes (and symbolic length / index) on the real decoders; Kani's bounds, overflow and unwrap checks are the postcondition",
-        "kani_units": ["varint", "key", "row_serde", "headers", "page", "leaf", "interior", "view", "toast", "sq8"],
+        "kani_units": ["varint", "key", "row_serde", "headers", "page", "leaf", "interior", "view", "toast", "sq8", "wal"],
         "harness_timeout": 900,
         "explanation": "",
     },
